@@ -32,3 +32,14 @@ Theorem C02_authenticated_range : forall b c, dataMsg_deser b = Ok c ->
   exists rest, b = dm_cache c ++ dm_auth c ++ rest /\ lenN (dm_auth c) = 20.
 Proof. exact dataMsg_mac_range. Qed.
 Print Assumptions C02_authenticated_range.
+
+(* ---- at conversation level, every call of every history ----
+   A text comes out of Receive only as a plaintext message (with the received-unencrypted event whenever encryption was
+   due) or as the text of a data message that arrived while the conversation was encrypted, is well-formed, carries a
+   MAC that verifies under the receiving key of the key pair it names (inside the window) over every field, and a
+   counter above the one recorded for that pair.  No key-exchange message, no rejected data message and no user call
+   returns a text. *)
+From OTR Require Import Proto.Conv Proto.Delivery.
+Theorem C02_only_authentic_text_is_delivered : forall h c, all_delivered_ok c h.
+Proof. exact history_delivers_authentic. Qed.
+Print Assumptions C02_only_authentic_text_is_delivered.
